@@ -190,10 +190,14 @@ def collect(ctx, prop):
     S = [{"id": "mc%d" % i, "steps": [[OPMAP.get(a[0], a[0]), a[1]] for a in s], "refuse": []} for i, s in enumerate(scheds)]
     S += drip_schedules()
     S += [rand_schedule(rng, i) for i in range(nrand)]
+    nl = 0
     for s in S:
-        if "loader" not in s and rng.random() < 0.25:
+        if "loader" not in s and rng.random() < 0.25 and nl < 2000:
             s["loader"] = True          # the same schedule with admission through the real loader
-    S += burst_schedules(rng, 200 if quick else 2000, 100, 16)
+            nl += 1
+    # the bursts go first: they look at goroutine dumps, and every loader scenario leaves one parked goroutine behind
+    # (the loader's update loop has no exit)
+    S = burst_schedules(rng, 200 if quick else 1000, 100, 16) + S
     ctl = controls(ctx)
     ind = inductive(ctx, big=not quick)
     ctx.log("Apalache inductive invariant: %s" % ind["status"])
